@@ -19,7 +19,7 @@ func init() {
 			"(R2) the result is written before done is closed and every read outside the completing function is dominated by a receive on done; (R3) the closer deregisters exactly the agent ref that was registered, and registration precedes the request's enqueue; " +
 			"(R4) a completion source armed before the registration is compensated by a completion re-check after it that deregisters; (R5) the kill routine completes the dying actor's pending asks with the actor-dead error on every path; " +
 			"(R6) the reply address contains a fresh UUID and is the sender of the request envelope and the registry key; (R7) forwarders/timer under the future's mutex, the agent table under its lock (no escape of the inner map). " +
-			"(R8) a forwarder is appended only after observing 'not completed' while holding the mutex under which the completing function takes the forwarder list, in one critical section. NOT decided: 'no earlier than its timeout' (clock), that Result/Wait return (they block on done; R1 shows done is closed on every completing path); timeout<=0 arms no timer by design.",
+			"(R8) a forwarder is appended only after observing 'not completed' while holding the mutex under which the completing function takes the forwarder list, in one critical section. (R5, addition) the per-asker bucket of the agent table is dropped as a whole only on an edge asserting it is empty, so no registered ask is hidden from the death sweep. NOT decided: 'no earlier than its timeout' (clock), that Result/Wait return (they block on done; R1 shows done is closed on every completing path); timeout<=0 arms no timer by design.",
 		Rules: []Rule{
 			{ID: "C04.R1", Min: 8, Desc: "one-shot completion", Fn: c04OneShot},
 			{ID: "C04.R2", Min: 4, Desc: "safe publication of the result", Fn: c04Publication},
